@@ -2,7 +2,7 @@
 from ..runner import Ob
 from ._pag import F_ASSIGN, F_META, HDR, assign_ob, partitions
 
-ORACLE = "breaks_iff_required(pages, H, S, G, nrow, add, new_page)"
+ORACLE = "breaks_iff_required(pages, H, S, G, nrow, add, new_page, C)"
 WHAT = ("page(i)!=page(i-1) => forced(i) or fill+h_i>avail; page(i)==page(i-1) => not forced and fill+h_i<=avail; "
         "pages start at 1 and step by 0/1 (oracle recomputes fill from the returned assignment)")
 
@@ -58,7 +58,7 @@ def build(tier, seed):
         obs.append(assign_ob(
             "O2.prefix.n%d" % n, n, "pages[:%d] == shorter" % (n - 1),
             "assignment of rows 0..n-2 is the same with and without row n-1", T,
-            extra_body="    shorter = assign(H[:-1], S[:-1], G[:-1], nrow, add, new_page)\n"))
+            extra_body="    shorter = assign(H[:-1], S[:-1], G[:-1], nrow, add, new_page, C[:-1])\n"))
     # O3: group-start flags and budgeted heading rows from calculate_row_metadata
     for n in ((2, 3) if quick else (2, 3, 4)):
         for levels in (1, 2):
